@@ -34,10 +34,11 @@ theorem backends_same_values (gs : Grids) (p : List Stmt) (h : agree? gs p = tru
 example : agree? [(0, some [2, 2])]
     [.assign 0 (.shaped (.field ⟨[4], .real, [⟨1, 0⟩, ⟨2, 0⟩, ⟨3, 0⟩, ⟨4, 0⟩]⟩ 0))] = true := by decide
 
-/-- the semantic form (any stores related by `Rel`, hypothesis `ProgAgree`) is
-`FieldProg.run_same_values`; `ProgAgree` is implied by the decidable check -/
-theorem agree_implies_progAgree (gs : Grids) (p : List Stmt) (h : agree? gs p = true) : ProgAgree gs {} {} p :=
-  progAgreeB_sound gs p {} {} h
+/-- the check passes for every program that does not use `.shaped` (so `backends_same_values` is
+unconditional there; the semantic form of the hypothesis, `ProgAgree`, and the proof that the check implies
+it are `FieldProg.progAgreeB_sound` / `FieldProg.run_same_values` in `Lemmas/FieldProg.lean`) -/
+theorem agree_of_noShaped (gs : Grids) (p : List Stmt) (h : ∀ st ∈ p, StmtNoShaped st) : agree? gs p = true :=
+  progAgreeB_of_noShaped gs p h {} {}
 
 /-- the statement index the driver reports (`A 0 <i>`) is `none` exactly when the check passes -/
 theorem agree_iff_no_disagreeing_statement (gs : Grids) (p : List Stmt) :
@@ -53,7 +54,7 @@ theorem agree_detects_0d_shaped :
 theorem backends_same_values_noShaped (gs : Grids) (p : List Stmt) (h : ∀ st ∈ p, StmtNoShaped st) :
     traceData ((runO gs {} p).1, (runO gs {} p).2.map OState.dump) =
     traceData ((runN gs {} p).1, (runN gs {} p).2.map NState.dump) :=
-  run_same_values gs p {} {} rel_init (progAgree_of_noShaped gs p h {} {})
+  backends_same_values gs p (agree_of_noShaped gs p h)
 
 /-- Expression level, any two wrapping policies and any stores that read the same values. -/
 theorem expression_same_values (P Q : Policy) (gs : Grids) (lo ln : Nat → Except Err Val)
@@ -343,7 +344,7 @@ Tied by the driver ops `select`, `mft`, `nft` (harness: `run_select_tie`, `run_c
 `_make_func` closures are re-made over recording fake backends, and the attributes of reused real
 `MatrixFourierTransform` / `NaiveFourierTransform` objects are read after every call. -/
 section Fourier
-open HcipyVerif.FourierSwitch
+open HcipyVerif.FourierSwitch HcipyVerif.FourierSwitch.Spec
 
 /-- **Backend selection returns the first working backend** in the order the code tries them
 (threads-major: every method with the first number of threads, then every method with the next),
@@ -473,6 +474,20 @@ theorem mft_call_independent {X M B R : Type} (K : MftKern X M B R) (pre alloc :
 
 example : Keyed provKern (mftCall provKern true true {} .fwd .c64 (0, .c128)).2 :=
   (mft_call_independent provKern true true {} (keyed_empty _) .fwd .c64 (0, .c128)).2
+
+/-- the same with the invariant as the *check the driver runs after every call* (`k1` in the answer of
+`C19 mft`; compared with `M1.dtype == matrices_dtype` read off the real object): from a cache that passes
+the check, the call returns what a fresh switch-less object returns, and the cache passes the check again -/
+theorem mft_call_independent_checked {X M B R : Type} [BEq M] [LawfulBEq M] (K : MftKern X M B R) (pre alloc : Bool)
+    (c : MftCache M B) (hk : keyedB K c = true) (d : Dir) (p : CPrec) (x : X) :
+    (mftCall K pre alloc c d p x).1 = mftFresh K d p x ∧ keyedB K (mftCall K pre alloc c d p x).2 = true := by
+  obtain ⟨h1, h2⟩ := mft_call_independent K pre alloc c ((keyedB_iff K c).mp hk) d p x
+  exact ⟨h1, (keyedB_iff K _).mpr h2⟩
+
+example : keyedB provKern ({} : MftCache CPrec BufProv) = true := rfl
+
+/-- the check is not vacuous: a cache whose recorded dtype does not describe its matrices fails it -/
+example : keyedB provKern ({ mats := some (.c64, .c128) } : MftCache CPrec BufProv) = false := rfl
 
 /-- the model *can* fail: with an intermediate that is allocated only when there is none (seeded
 defect C19-2), `allocate_intermediate=True` makes the second call of the script complex64 → complex128
